@@ -66,6 +66,7 @@ type c16BSStats struct {
 	tables, multiCol, rows, numbers, ranges, deltas, pvalues int
 	warnings, footnoteRefs, missingCells, geomeanRows        int
 	multiLevel, wideHeaderCells, orphanCols                  int
+	maxFoot, multiDigitRefs                                  int // most footnote lines under one table; marks of >= 2 digits resolved in cells
 	worst                                                    float64
 }
 
@@ -584,18 +585,30 @@ func c16CompareTable(ti int, lines []string, t *c16CSVTable, warns map[int][]c16
 	}
 
 	// footnotes
+	// Footnote marks are read as what they are: decimal numbers written in
+	// superscript digits, most significant digit first, in the cells and in
+	// front of the footnote lines alike. A mark in a cell denotes the footnote
+	// line carrying the same NUMBER; the numbers need not be consecutive, but
+	// one number in front of two different footnote texts leaves every cell
+	// carrying it without a definite warning.
 	fnStart := need
-	var foot []string
+	foot := map[int]string{}
 	for i := fnStart; i < len(lines); i++ {
 		sp := strings.IndexByte(lines[i], ' ')
 		if sp < 0 {
 			return nil, c16Unp("text-footnote")
 		}
 		n, ok := c16SuperNum(lines[i][:sp])
-		if !ok || n != len(foot)+1 {
+		if !ok {
 			return nil, c16Unp("text-footnote")
 		}
-		foot = append(foot, lines[i][sp+1:])
+		if prev, dup := foot[n]; dup && prev != lines[i][sp+1:] {
+			return kit.Failf("bs-footnote-number", "table %d: two footnote lines carry the number %d (%q): %q and %q, so the marks in the cells do not identify one warning%s", ti, n, lines[i][:sp], prev, lines[i][sp+1:], ctx()), nil
+		}
+		foot[n] = lines[i][sp+1:]
+	}
+	if len(foot) > st.maxFoot {
+		st.maxFoot = len(foot)
 	}
 
 	// rows
@@ -628,11 +641,15 @@ func c16CompareTable(ti int, lines []string, t *c16CSVTable, warns map[int][]c16
 			if !ok {
 				break
 			}
-			if n < 1 || n > len(foot) {
-				return i, kit.Failf("bs-warning", "table %d: footnote mark %q has no footnote line (%d footnotes)%s", ti, toks[i].s, len(foot), ctx())
+			msg, ok := foot[n]
+			if !ok {
+				return i, kit.Failf("bs-warning", "table %d: footnote mark %q (number %d) has no footnote line (%d footnotes)%s", ti, toks[i].s, n, len(foot), ctx())
 			}
-			*dst = append(*dst, c16TextCellWarn{field, foot[n-1]})
+			*dst = append(*dst, c16TextCellWarn{field, msg})
 			st.footnoteRefs++
+			if n >= 10 {
+				st.multiDigitRefs++
+			}
 			i++
 		}
 		return i, nil
@@ -914,7 +931,16 @@ func c16BSCheck(c c16BSCase) (fail *kit.Fail) {
 	kit.Count("c16.bs.summary-rows", int64(st.geomeanRows))
 	kit.Count("c16.bs.tables-with-column-without-comparison", int64(st.orphanCols))
 	kit.NoteMax("c16.bs.worst-number-distance-in-half-units", st.worst)
-	c16BSNonTrivial.Store(c.ID, st.multiCol > 0 && st.deltas > 0)
+	kit.Count("c16.bs.footnote-marks-of-2+-digits", int64(st.multiDigitRefs))
+	kit.NoteMax("c16.bs.most-footnotes-under-one-table", float64(st.maxFoot))
+	if st.maxFoot >= 10 {
+		kit.Count("c16.bs.pairs-with-10+-footnotes-under-one-table", 1)
+	}
+	if c.ID >= c16WarnIDBase {
+		c16BSNonTrivial.Store(c.ID, st.maxFoot >= 10 && st.multiDigitRefs > 0)
+	} else {
+		c16BSNonTrivial.Store(c.ID, st.multiCol > 0 && st.deltas > 0)
+	}
 	return nil
 }
 
@@ -1153,8 +1179,111 @@ func c16BSGen(r *kit.Rand, id int) c16BSCase {
 	return c
 }
 
+// c16WarnIDBase separates the case IDs of the many-warnings class from those of
+// the main class (the IDs key the non-triviality side channel).
+const c16WarnIDBase = 1 << 30
+
+// c16BSGenWarn: "any number of warnings". 10-25 benchmarks measured in a unit
+// declared assume=exact, each jittering over its own value range, give one
+// distinct "exact distribution expected, but values range from A to B" warning
+// per cell; with 1-3 files (columns) a table carries 10-60 distinct footnotes,
+// some shared between cells, next to the usual sample-count, residue and
+// geomean warnings.
+func c16BSGenWarn(r *kit.Rand, id int) c16BSCase {
+	c := c16BSCase{ID: c16WarnIDBase + id}
+	nB := r.Range(10, 25)
+	exactUnit := kit.Pick(r, []string{"B/op", "widgets", "allocs/op", "items/s", "MB/s"})
+	withNs := r.Chance(0.4)
+	nFiles := r.Range(1, 3)
+	style := r.Intn(3)
+	names := make([]string, nB)
+	for i := range names {
+		switch style {
+		case 0:
+			names[i] = fmt.Sprintf("Size%02d", i+1)
+		case 1:
+			names[i] = fmt.Sprintf("Foo/n=%d", i+1)
+		default:
+			names[i] = fmt.Sprintf("%s/k=%s/size=%d", kit.Pick(r, []string{"Enc", "Zé"}), kit.Pick(r, []string{"v1", "w"}), i+1)
+		}
+	}
+	step := kit.Pick(r, []float64{1, 10, 1000, 1 << 20, 0.5})
+	type rng struct{ lo, hi float64 }
+	base := make([]rng, nB)
+	for i := range base {
+		lo := float64(i+1) * step * 16
+		base[i] = rng{lo, lo + float64(r.Range(1, 9))*step}
+	}
+	fileNames := []string{"a.txt", "b.txt", "c.txt"}
+	for fi := 0; fi < nFiles; fi++ {
+		var sb strings.Builder
+		if fi == 0 || r.Chance(0.3) {
+			fmt.Fprintf(&sb, "Unit %s assume=exact\n", exactUnit)
+		}
+		if r.Chance(0.5) {
+			sb.WriteString("goos: linux\n")
+		}
+		sameAsFirst := r.Chance(0.3) // the same ranges as the first file: footnotes shared between columns
+		for i, n := range names {
+			if r.Chance(0.08) {
+				continue
+			}
+			rg := base[i]
+			if fi > 0 && !sameAsFirst && r.Chance(0.8) {
+				rg.lo += float64(fi) * step * 4
+				rg.hi += float64(fi)*step*4 + float64(r.Range(0, 3))*step
+			}
+			samples := r.Range(2, 6)
+			allEqual := r.Chance(0.12)
+			for k := 0; k < samples; k++ {
+				v := rg.lo
+				switch {
+				case allEqual:
+				case k == 1:
+					v = rg.hi
+				case k > 1:
+					v = kit.Pick(r, []float64{rg.lo, rg.hi, rg.lo, (rg.lo + rg.hi) / 2})
+				}
+				fmt.Fprintf(&sb, "Benchmark%s\t%d\t%s %s", n, r.Range(1, 1000), strconv.FormatFloat(v, 'g', -1, 64), exactUnit)
+				if withNs {
+					fmt.Fprintf(&sb, "\t%s ns/op", strconv.FormatFloat(float64(100*(i+1))*(1+0.1*r.Float64()), 'g', 6, 64))
+				}
+				sb.WriteString("\n")
+			}
+		}
+		f := c16BSFile{Name: fileNames[fi], Content: kit.B(sb.String())}
+		if r.Chance(0.4) {
+			f.Label = kit.Pick(r, []string{"old", "new", "exp é"})
+		}
+		c.Files = append(c.Files, f)
+	}
+	opt := func(name string, p float64, vals ...string) {
+		if r.Chance(p) {
+			c.Flags = append(c.Flags, name, kit.Pick(r, vals))
+		}
+	}
+	opt("-col", 0.4, ".file", "", "goos,.file", ".file")
+	opt("-row", 0.3, ".fullname", ".fullname@alpha", ".name,/size")
+	opt("-filter", 0.15, "*", ".unit:"+exactUnit)
+	opt("-alpha", 0.2, "0.2", "0.05", "0.001")
+	opt("-confidence", 0.2, "0.5", "0.99", "0.95")
+	return c
+}
+
 func TestVerifC16Benchstat(t *testing.T) {
+	nonTrivial := func(c c16BSCase) bool {
+		v, ok := c16BSNonTrivial.Load(c.ID)
+		return ok && v.(bool)
+	}
 	kit.Run(t, "C16", kit.Class[c16BSCase]{
+		Name: "benchstat-many-warnings", Quick: 300, Thorough: 8000,
+		Gen:           c16BSGenWarn,
+		Check:         c16BSCheck,
+		NonTrivial:    nonTrivial,
+		MinNonTrivial: 150,
+		Rule: "1-3 generated input files with 10-25 benchmarks measured in a unit declared assume=exact (optionally ns/op as well), every benchmark with its own value range (2-6 samples, some all equal, ranges partly shared between files), so that one table carries 10-60 distinct warnings; flags from -col/-row/-filter/-alpha/-confidence; same text-vs-CSV comparison as benchstat-text-vs-csv: each cell's footnote marks are read as decimal numbers in superscript digits, mapped through the numbered footnote lines to warning texts and compared with the CSV's warnings for the same row and field. " +
+			"non-trivial = pair compared completely with >= 10 footnote lines under one table and >= 1 mark of two or more digits resolved in a cell",
+	}, kit.Class[c16BSCase]{
 		Name: "benchstat-text-vs-csv", Quick: 3000, Thorough: 80000,
 		Gen:   c16BSGen,
 		Check: c16BSCheck,
